@@ -8,6 +8,8 @@ for id in $ids; do
   d=seeded/$id/$v
   [ -d $d ] || continue
   patch=$d/patch.diff; [ -f $d/patch_head.diff ] && patch=$d/patch_head.diff
+  # SEED_WT_BASE=<dir holding one scratch worktree of /repo per property id>: run there instead of in /repo
+  [ -n "${SEED_WT_BASE:-}" ] && export SEED_REPO=$SEED_WT_BASE/$id
   out=$(engine/seedtest.sh /verif/$patch $id 2>&1)
   rc=$(echo "$out" | grep -o "seedtest rc=[0-9]*" | cut -d= -f2)
   viol=$(echo "$out" | grep -c "^VIOLATION")
